@@ -13,6 +13,7 @@ import os
 import random as _random
 
 from . import common, gen, project, tlc, cands, cliargs
+from .exc import exc_name
 
 
 def side(fn):
@@ -21,7 +22,7 @@ def side(fn):
     except SystemExit as e:
         return {"outcome": "CLIExit", "cls": "CNF", "nvars": 0, "labels": [], "clauses": []}
     except Exception as e:
-        return {"outcome": type(e).__name__, "cls": "CNF", "nvars": 0, "labels": [], "clauses": []}
+        return {"outcome": exc_name(e), "cls": "CNF", "nvars": 0, "labels": [], "clauses": []}
     p = project.formula(F)
     out = {"outcome": "ok", "cls": p["cls"], "nvars": p["nvars"], "labels": p["labels"]}
     if p["cls"] == "OPB":
